@@ -81,7 +81,7 @@ NOT_APPLICABLE = [
 def main():
     repo_commits = subprocess.run(['git', '-C', '/repo', 'log', '--format=%h %s'], capture_output=True,
                                   text=True).stdout.strip().split('\n')
-    hook_commits = [c.split()[0] for c in repo_commits if 'verif hook' in c]
+    hook_commits = [c.split()[0] for c in repo_commits if 'verif hook' in c or 'verification hook' in c]
     fix_commits = [c.split()[0] for c in repo_commits if c.split(' ', 1)[1].startswith('fix:')]
     checks = []
     claimed = sorted(U.PLAN.keys())
